@@ -318,7 +318,7 @@ pub fn case(ctx: &Ctx, shard: usize, index: u64, rep: &mut Report) {
 }
 
 pub fn run(ctx: &Ctx) -> (Report, String) {
-    let per_shard = ctx.n(600, 30000);
+    let per_shard = ctx.n(4000, 60000);
     let thorough = ctx.tier == Tier::Thorough;
     let reps = par_shards(64, ctx.threads, |s| {
         let mut rep = Report::new();
@@ -356,7 +356,7 @@ pub fn run(ctx: &Ctx) -> (Report, String) {
     let mut rep = Report::merge_all(reps);
     if ctx.is_main() {
         let m = ctx.scale_pct;
-        rep.require("histories_completed", if thorough { 1_000_000 } else { 20_000 } * m / 100);
+        rep.require("histories_completed", if thorough { 2_500_000 } else { 150_000 } * m / 100);
         for k in ["predictions_identified", "predictions_after_non_reference_event", "tr_collision_cases", "trigram:IDP", "trigram:PDP", "trigram:DDP", "trigram:DFP", "trigram:DCP", "bigram:DD", "cleanup_calls", "rejected_inputs", "last_picture_checks"] {
             rep.require(k, 100 * m / 100);
         }
